@@ -154,11 +154,18 @@ def check_instance(n, k, iseed, nbox, ndir):
             v("continuity", probe=tag, x=oc.jl(x), y=oc.jl(y), f_x=a, f_y=b, jump=abs(a - b), **extra)
 
     kept = []  # points re-evaluated in the reproducibility clause
-    for _ in range(nbox):
+    for j in range(nbox):
         x = [r.uniform(-1, 1) for _ in range(n)]
+        if j % 8 == 0:
+            # points ON the boundary of the box (faces, edges, corners): the function is defined and continuous there too
+            for i in range(n):
+                if r.random() < 0.5:
+                    x[i] = r.choice([-1.0, 1.0])
         u = _unit(r, n)
         y = [min(1.0, max(-1.0, xi + 1e-9 * ui)) for xi, ui in zip(x, u)]
-        pair(x, y, "box")
+        if j % 8 == 0:
+            y = [xi * (1 - 1e-9) for xi in x]          # the same point pulled slightly inwards
+        pair(x, y, "box-boundary" if j % 8 == 0 else "box")
         if len(kept) < 12:
             kept.append(x)
     for i in range(1, 10):
